@@ -108,11 +108,11 @@ func run(c vrt.Case) vrt.Obs {
 	}
 	var calls []string
 	for _, s := range b.rec.Window {
-		t := s.Text
-		if len(t) > 160 {
-			t = t[:160] + "..."
+		t := strings.ReplaceAll(s.Text, b.runDir, "<mbox>")
+		if len(t) > 200 {
+			t = t[:200] + "..."
 		}
-		calls = append(calls, strings.ReplaceAll(t, b.runDir, "<mbox>"))
+		calls = append(calls, t)
 	}
 	o.Sample = map[string]any{"kind": p.Kind, "scenario": p.Sc, "operation_syscalls": calls}
 	ws := writesOf(b.rec.Window)
